@@ -50,7 +50,7 @@ def gen_scenario(seed, tier="quick", opts=None):
 def run_scenario(sc) -> Result:
     res = Result()
     res.signature = history.scenario_signature(sc)
-    run = history.run_history(sc, monitors=[StaleChildMonitor()])
+    run = history.run_history(sc, monitors=[StaleChildMonitor()], track_detached=True)
     w = run.uni.world
     ncmd = history.collect(res, w, run.results)
     fp = [w.fingerprint()]
@@ -102,7 +102,7 @@ def run_scenario(sc) -> Result:
                 key = "defer-cap-on-detached-dynamic-input"
             elif _stale_child(w, run.last):
                 key = "stale-child-of-rerunning-plan"
-        if _stale_static_hash(run.uni):
+        if _stale_static_hash(run.uni, run):
             # known finding F26, whatever the first difference happens to be
             key = "static-file-changed-while-detached"
         res.violate("T-scratch", "differs", "\n".join(diffs[:14]), key)
@@ -117,10 +117,12 @@ def run_scenario(sc) -> Result:
     return res
 
 
-def _stale_static_hash(uni):
+def _stale_static_hash(uni, run):
     """The structure of known finding F26: an attached CONFIRMED file whose recorded digest is
-    not the content on disk after a completed build (it changed while its node was detached,
-    which neither the startup rescan nor the recycling of its declaring plan looks at)."""
+    not the content on disk after a completed build, and which the user edited in a phase at
+    whose beginning its node was detached (neither the startup rescan nor the recycling of its
+    declaring plan looks at such a file).  A stale digest of a file that was attached whenever
+    it was edited is some other failure of change detection and is not classified here."""
     import os
 
     from sim.monitors import _hex_digest
@@ -136,7 +138,11 @@ def _stale_static_hash(uni):
             continue
         on_disk = digest_of(os.path.join(uni.root, label))
         if on_disk not in (None, "DIR") and _hex_digest(hj) not in (None, "?", on_disk):
-            return True
+            for k, ops in enumerate(run.user_ops):
+                if k < len(run.detached_before) and label in run.detached_before[k] and any(
+                    op[0] in ("write", "chmod") and op[1] == label for op in ops
+                ):
+                    return True
     return False
 
 
